@@ -17,6 +17,7 @@ import re
 from lib import core
 
 DRIVER = "drv_grid"
+LEAN_TARGETS = ["OmplModel.Props.C13", DRIVER]
 CMPS = ["less", "greater", "div4", "mod16"]
 EVS = ["none", "lo", "hi"]
 FAR = 1 << 30
@@ -274,6 +275,72 @@ def gen_dense(rng):
     return g.lines
 
 
+def gen_bulk_rekey(rng):
+    """9..40 cells that all sit in ONE queue (all border: limit 2*dim+1 without bounds; all interior: limit 1 and
+    every cell on a degenerate bound), the data of many/all cells rewritten WITHOUT per-cell update (random new
+    priorities, reversals, many ties), then `updall`, then a drain: cells removed one at a time (the reported
+    top, or a random cell), both tops checked after every removal.  With the event `none` the functor reads the
+    caller-written data directly, so the queues are out of order on entry to updateAll()."""
+    dim = rng.choice([2, 2, 3, 4])
+    interior = rng.chance(1, 2)
+    if interior:
+        # dimension 0 is degenerate (low = up = 0) and every cell has coord[0] = 0: count >= 1 = limit
+        lo = [0] + [-3] * (dim - 1)
+        up = [0] + [3] * (dim - 1)
+        g = Gen(rng, dim=dim, limit=1, bounds=(lo, up), ev=rng.choice(["none", "none", "none", "lo"]))
+    else:
+        g = Gen(rng, dim=dim, limit=2 * dim + 1, bounds=None, ev=rng.choice(["none", "none", "none", "hi"]))
+    top, rmtop = ("topi", "rmtopi") if interior else ("tope", "rmtope")
+    other = "tope" if interior else "topi"
+    for rounds in range(rng.range(1, 3)):
+        n = rng.range(9, 40) if not rng.chance(1, 4) else rng.range(9, 16)
+        cells = set()
+        while len(cells) < n:
+            x = [0 if (interior and i == 0) else rng.range(-3, 3) for i in range(dim)]
+            cells.add(tuple(x))
+        cells = list(cells)
+        style = rng.below(4)
+        vals = {}
+        for k, x in enumerate(cells):
+            vals[x] = (k * 37 % 4096) if style == 0 else rng.below(4096)
+            g.new(x, vals[x])
+        for rekeys in range(rng.range(1, 2)):
+            # new priorities: reversal / fresh random / few distinct values (ties) / random subset only
+            sub = list(cells)
+            if style == 3:
+                rng.shuffle(sub)
+                sub = sub[: rng.range(len(sub) // 2, len(sub))]
+            parts = []
+            for x in sub:
+                if style == 0:
+                    v = 4095 - vals[x]
+                elif style == 2:
+                    v = rng.below(4) * 16 + rng.below(3)
+                else:
+                    v = rng.below(4096)
+                vals[x] = v
+                parts.append("%s %d" % (g.cs(x), v))
+            g.lines.append("updall %d %s" % (len(sub), " ".join(parts)))
+            g.lines += [top, other]
+            # drain, fully or partly
+            left = list(cells)
+            stop = 0 if rekeys else (0 if rng.chance(2, 3) else rng.range(0, len(left) // 2))
+            mode = rng.below(3)        # 0 best-first, 1 random order, 2 mixed
+            while len(left) > stop:
+                if mode == 0 or (mode == 2 and rng.chance(1, 2)):
+                    g.lines.append(rmtop)
+                    left.pop()         # which cell went is unknown to the generator: a later `rm` of it answers `absent`
+                else:
+                    x = left.pop(rng.below(len(left)))
+                    g.lines.append("rm " + g.cs(x))
+                    g.lines.append(top)
+            cells = left
+        g.lines.append("clear")
+        g.present = []
+    g.lines += ["topi", "tope"]
+    return g.lines
+
+
 def gen_exhaustive_batches(length, cfgs, per_batch=40):
     """every op sequence of the given length over a small alphabet, batched (`clear` between sequences)."""
     for hdr, coords in cfgs:
@@ -333,7 +400,7 @@ def well_formed(t, dim):
         if len(t) < 2 or not t[1].isdigit():
             return False
         return len(t) == 2 + int(t[1]) * (dim + 1) and all(isint(z) for z in t[2:])
-    if op in ("topi", "tope", "clear"):
+    if op in ("topi", "tope", "rmtopi", "rmtope", "clear"):
         return len(t) == 1
     return False
 
@@ -424,6 +491,32 @@ def oracle(script, out, stats=None):
             exp = "ok"
         elif op == "has":
             exp = "1 c=%d" % sp.cells[x][0] if x in sp.cells else "0"
+        elif op in ("rmtopi", "rmtope"):
+            # judged on the abstract state *before* the removal: the removed cell must be a best cell of its class
+            cls = {}
+            for y, (cid, written) in sp.cells.items():
+                cnt = sp.count(y)
+                cls[cid] = (y, cnt < hdr.limit, sp.evf(written, cnt))
+            inter = [c for c, v in cls.items() if not v[1]]
+            bord = [c for c, v in cls.items() if v[1]]
+            first, second = (inter, bord) if op == "rmtopi" else (bord, inter)
+            lt1, lt2 = (ltI, ltE) if op == "rmtopi" else (ltE, ltI)
+            if not cls:
+                exp = "none"
+            else:
+                pool, lt = (first, lt1) if first else (second, lt2)
+                if stats is not None:
+                    stats["drain-steps"] = stats.get("drain-steps", 0) + 1
+                    stats["max-class-size"] = max(stats.get("max-class-size", 0), len(pool))
+                m = re.fullmatch(r"c=(\d+)", res)
+                if not m or int(m.group(1)) not in pool:
+                    return (i, "%s removed %s, not a cell of the %s queue %s" % (op, res, "own" if first else "other", sorted(pool)))
+                rid = int(m.group(1))
+                for cid in pool:
+                    if lt(cls[cid][2], cls[rid][2]):
+                        return (i, "%s took cell %d (data %d) as the top although cell %d (data %d) is better"
+                                % (op, rid, cls[rid][2], cid, cls[cid][2]))
+                del sp.cells[cls[rid][0]]
         elif op == "clear":
             sp.cells = {}
             exp = "ok"
@@ -543,9 +636,12 @@ def judge(ck, hbin, script, tag, pre=None, nseq=1):
     stats = {"flip:to-border": 0, "flip:to-interior": 0, "top-of-empty-side(F3 shape)": 0}
     fail = oracle(script, impl, stats)
     flips = stats["flip:to-border"] + stats["flip:to-interior"]
-    ck.case(tuple(script), stats["flip:to-border"] > 0 and stats["flip:to-interior"] > 0)
+    mcs = stats.pop("max-class-size", 0)
+    ck.case(tuple(script), (stats["flip:to-border"] > 0 and stats["flip:to-interior"] > 0) or mcs >= 9)
     ck.count("scripts:" + tag, nseq)
     ck.count("ops", len(script) - 1)
+    if mcs >= 9:
+        ck.count("drain-from-a-queue-of>=9-cells")
     for k, v in stats.items():
         ck.count(k, v)
     hdr = Header(script[0])
@@ -569,21 +665,31 @@ def judge(ck, hbin, script, tag, pre=None, nseq=1):
     d = ck.first_diff(impl, model)
     if fail is None and d is not None:
         # targeted search: model and code disagree at line d although the oracle is satisfied (e.g. a heap
-        # laid out differently).  Continue from there with tops, removals of the reported tops and updates,
-        # looking for a continuation on which the property itself fails.
+        # laid out differently).  Drain from the disagreeing state (repeated removal of the reported top and of
+        # random cells), looking for a continuation on which the property itself fails (a top that is not a best cell).
         r = ck.rng.fork("search%d" % ck.traces_validated)
         pres = []
         try:
             pres = [c[0] for c in parse_dump(impl[d].partition(" | ")[2], hdr.dim)["cells"].values()]
         except Exception:   # noqa
             pass
-        for attempt in range(60):
+        for attempt in range(48):
+            # drain from the disagreeing state: remove the reported top (best-first), random cells, or a mix;
+            # every line's dump lets the oracle check that both tops are best cells of their class
             cont = []
             cs = list(pres)
             r.shuffle(cs)
-            for x in cs[: r.range(0, len(cs))]:
-                xs = " ".join(map(str, x))
-                cont += [r.choice(["topi", "tope"]), r.choice(["rm " + xs, "upd %s %d" % (xs, r.below(4096)), "rm " + xs])]
+            mode = attempt % 4       # 0 best-first external/internal alternating, 1 random order, 2 mixed, 3 mixed + updates
+            for k in range(len(cs) + 2):
+                z = r.below(100)
+                if mode == 0 or (mode >= 2 and z < 50):
+                    cont.append(r.choice(["rmtope", "rmtopi"]) if mode else ("rmtope" if attempt % 8 < 4 else "rmtopi"))
+                elif cs:
+                    xs = " ".join(map(str, cs.pop()))
+                    if mode == 3 and z >= 90:
+                        cont.append("upd %s %d" % (xs, r.below(4096)))
+                    else:
+                        cont += ["rm " + xs, r.choice(["topi", "tope"])]
             cont += ["topi", "tope"]
             s2 = script[:d + 2] + cont
             impl2, rc2, err2, model2 = run_script(ck, hbin, s2)
@@ -592,6 +698,7 @@ def judge(ck, hbin, script, tag, pre=None, nseq=1):
             if f2 is not None or rc2 != 0:
                 script, impl, rc, err, model = s2, impl2, rc2, err2, model2
                 fail = f2 or (len(impl2), "harness exited with code %s: %s" % (rc2, crash_site(err2)))
+                ck.count("search:continuation-found-failure")
                 break
     if fail is not None:
         # one replay per kind of failure: a second script failing in the same way (same message up to numbers,
@@ -660,7 +767,9 @@ def run(ck):
     ck.rule = ("scripts of grid operations following the user protocol of KPIECE's Discretization (corpus; random mixes over "
                "dimensions 1-4, all four functors, three update events, bounds none/box/degenerate, limits 1..2*dim+1; "
                "centre-and-arms flip sequences; dense bounded boxes; exhaustive short sequences in the thorough tier). "
-               "A script is non-trivial if some cell flips border->interior and some cell flips interior->border in it; "
+               "bulk-rekey: 9..40 cells in one queue, data rewritten without update, updateAll, then a drain by top/random removals. "
+               "A script is non-trivial if some cell flips border->interior and some cell flips interior->border in it, or if it "
+               "removes the reported top from a queue of >= 9 cells; "
                "distinct by script text")
     ck.trusted += ["harness/grid.cpp opens `private`/`protected` of GridB.h/BinaryHeap.h for its own translation unit to read "
                    "internal_, external_ and vector_; all operations go through the public API",
@@ -671,14 +780,14 @@ def run(ck):
                        "coordinates within +-2^30 (coord+-1 cannot overflow int); interior limit >= 1",
                        "the ordering functors are strict weak orders; the update event is a function of (data, neighbors)",
                        "topInternal()/topExternal() on an empty grid are outside the contract and not called"]
-    ck.lean_build(["OmplModel.Props.C13", DRIVER])
-    ck.audit()
+    ck.lean_build(LEAN_TARGETS)
+    ck.audit(roots=["Drv.Grid"])
     if ck.tier == "thorough" and ck.lean_ok:
         ck.leanchecker(["OmplModel.Props.C13"])
     hbin = build(ck)
     quick = ck.tier == "quick"
     jobs = [(name, script, "corpus", 1) for name, script in corpus()]
-    nrand, nflip, ndense = (220, 90, 60) if quick else (2500, 900, 500)
+    nrand, nflip, ndense, nbulk = (220, 90, 60, 160) if quick else (2500, 900, 500, 2500)
     for i in range(nrand):
         r = ck.rng.fork("rand%d" % i)
         jobs.append(("rand%d" % i, gen_random(r, r.choice([12, 40, 120, 300])), "random", 1))
@@ -686,6 +795,8 @@ def run(ck):
         jobs.append(("flip%d" % i, gen_flip(ck.rng.fork("flip%d" % i)), "flip", 1))
     for i in range(ndense):
         jobs.append(("dense%d" % i, gen_dense(ck.rng.fork("dense%d" % i)), "dense", 1))
+    for i in range(nbulk):
+        jobs.append(("bulk%d" % i, gen_bulk_rekey(ck.rng.fork("bulk%d" % i)), "bulk-rekey", 1))
     nexh = 0
     for L in ((1, 2) if quick else (1, 2, 3, 4)):
         for batch, k in gen_exhaustive_batches(L, EXH_CFGS if (quick or L < 4) else EXH_CFGS[:2]):
